@@ -160,7 +160,7 @@ def run(chk, replay_rec):
     chk.traces += len(obs)
     # the sequential schedule against the exact predicted mesh
     full = [o for o in obs if o["full"]]
-    badu = chk.validate("UniTrace", [dict(dims=o["dims"], scene=o["scene"], tris=o["tris"], off=o["off"]) for o in full], chunks=1)
+    badu = chk.validate("UniTrace", [dict(dims=o["dims"], scene=o["scene"], tris=o["tris"], off=o["off"], badnorm=0) for o in full], chunks=1)
     for e, why in badu:
         chk.violation("sequential-schedule:" + why, "the strictly sequential schedule does not produce the predicted mesh: " + why,
                       dict(vectors=[v for v in vecs if v["full"]]))
